@@ -46,3 +46,4 @@ M.contract('xtuml.meta.MetaClass._is_null_value', [('self', MC), ('name', STR), 
            ensures={'same-null-rule-as-the-loader':
                     'result == (value is None or null_by_type(self, name, value))'},
            modifies=[])
+
